@@ -67,6 +67,7 @@ TREES = {
     "flat": ["r", "r.a", "r.b", "r.c"],
     "deep": ["r", "r.a", "r.a.x", "r.a.y", "r.b", "r.b.x", "r.c"],
     "prefix": ["r", "r.a", "r.ab", "r.a.x", "r.ab.x", "r.b"],
+    "nestedprefix": ["r", "r.a", "r.a.x", "r.a.xy", "r.a.x.p", "r.b", "r.bc"],
     "deeper": ["r", "r.a", "r.a.x", "r.a.x.p", "r.a.y", "r.b", "r.b.x", "r.b.x.p", "r.c", "r.c.x", "r.d"],
 }
 
